@@ -52,7 +52,18 @@ func VH_C17() {
 	for i := 0; i < N; i++ {
 		k, ts := vf.Byte(fmt.Sprintf("op%d.k", i)), vf.Byte(fmt.Sprintf("op%d.ts", i))
 		vf.Assume(ts <= 9)
-		if vf.Choose("op", 0, vf.Param("DEL", 1)) == 0 {
+		isSet := true
+		if seq := vf.Param("OPSEQ", 0); seq > 0 {
+			// fixed operation kinds: decimal digits of OPSEQ, 1 = Set, 2 = Delete
+			d := seq
+			for k := 0; k < N-1-i; k++ {
+				d /= 10
+			}
+			isSet = d%10 == 1
+		} else {
+			isSet = vf.Choose("op", 0, vf.Param("DEL", 1)) == 0
+		}
+		if isSet {
 			v, tomb := vf.Byte(fmt.Sprintf("op%d.v", i)), vf.Bool(fmt.Sprintf("op%d.del", i))
 			s.Set(types.Entry{Key: c17key(k, ts), Value: []byte{v}, Tombstone: tomb, Version: int64(ts)})
 			any := false
